@@ -989,7 +989,14 @@ class EventBus:
             await self._execute_handlers(event, handlers=applicable_handlers, timeout=timeout)
         except asyncio.CancelledError:
             # interrupted by a parent handler's timeout while being processed inline: the handlers that were
-            # running have recorded their error; whoever is waiting on this event must still be released
+            # running have recorded their error; the ones that had not started yet never will (the event has
+            # already left the queue), so their placeholders are closed too; whoever is waiting on this event
+            # must still be released
+            for result in event.event_results.values():
+                if result.status == 'pending' and result.eventbus_id == str(id(self)):
+                    result.update(
+                        error=asyncio.CancelledError('Cancelled pending handler: processing of the event was interrupted')
+                    )
             event.event_mark_complete_if_all_handlers_completed()
             raise
 
